@@ -46,6 +46,21 @@ def isTarget (d : Node) (addrs : List Addr) : Addr → Node → Bool :=
 def setSpec (d : Node) (addrs : List Addr) (s : Scalar) : Node :=
   d.mapAt (isTarget d addrs) (putScalar s)
 
+/-- Only scalars carry anchors (below the root): the documents of the C03 model class
+(anchored containers with aliases are out of model). -/
+def ScalarAnchors (d : Node) : Prop :=
+  ∀ y n, y ≠ [] → d.get? y = some n → n.anchor.isSome = true → n.isScalar = true
+
+/-- The matched addresses lie below the root, are not set members, and lead to scalars of `d`. -/
+def MatchedScalars (d : Node) (addrs : List Addr) : Prop :=
+  ∀ a ∈ addrs, a ≠ [] ∧ lastIsMember a = false ∧ ∃ n, d.get? a = some n ∧ n.isScalar = true
+
+/-- Anchor well-formedness: all nodes (below the root) that carry one anchor name are equal —
+an anchor together with its aliases, in the alias-expanded document. -/
+def AnchorWF (d : Node) : Prop :=
+  ∀ y y' n n', y ≠ [] → y' ≠ [] → d.get? y = some n → d.get? y' = some n' →
+    n.anchor.isSome = true → n.anchor = n'.anchor → n = n'
+
 mutual
 /-- Change exactly the node at address `q` by `g` (nothing if `q` leads nowhere). -/
 def Node.graftAt (g : Node → Node) : Node → Addr → Node
